@@ -367,18 +367,9 @@ theorem step_refines (fl : Flags) (m : MemState) (r : IoState) (op : Op)
     | write d =>
       cases hw : fl.writing
       · simp [MemFile.step, MemFile.stepOpen, IoRef.step, IoRef.stepOpen, IoRef.isReadline0, R, hw]
-      · cases ha : fl.appending
-        · by_cases hde : d.isEmpty = true <;>
-            simp [MemFile.step, MemFile.stepOpen, IoRef.step, IoRef.stepOpen, IoRef.isReadline0, R, hw, ha,
-              MemFile.seekLock, Bio.write, Bio.seekSet, IoRef.write1, Out.isErr, hde]
-        · by_cases hde : d.isEmpty = true
-          · have hp : p = b.length := by
-              simp [deviates, devClass, hw, ha, hde] at hd; exact hd
-            subst hp
-            simp [MemFile.step, MemFile.stepOpen, IoRef.step, IoRef.stepOpen, IoRef.isReadline0, R, hw, ha,
-              MemFile.seekLock, Bio.write, Bio.seekSet, Bio.seekEnd, IoRef.write1, Out.isErr, hde]
-          · simp [MemFile.step, MemFile.stepOpen, IoRef.step, IoRef.stepOpen, IoRef.isReadline0, R, hw, ha,
-              MemFile.seekLock, Bio.write, Bio.seekSet, Bio.seekEnd, IoRef.write1, Out.isErr, hde]
+      · cases ha : fl.appending <;> by_cases hde : d.isEmpty = true <;>
+          simp [MemFile.step, MemFile.stepOpen, IoRef.step, IoRef.stepOpen, IoRef.isReadline0, R, hw, ha,
+            MemFile.seekLock, Bio.write, Bio.seekSet, Bio.seekEnd, IoRef.write1, Out.isErr, hde]
     | writelines ls =>
       cases hw : fl.writing
       · have hne : ls.isEmpty = false := by
@@ -396,30 +387,35 @@ theorem step_refines (fl : Flags) (m : MemState) (r : IoState) (op : Op)
         · have hf := foldl_write_append fl ha ls b p false
           have hb := (foldl_write_at_end fl ls b false).2
           by_cases hall : ls.all (·.isEmpty) = true
-          · have hp : p = b.length := by
-              have hd' := hd
-              simp only [deviates, devClass, hw, ha, hall] at hd'
-              by_cases hpe : p = b.length
-              · exact hpe
-              · simp [hpe] at hd'
-            subst hp
-            have hbio := all_empty_foldl_bio ls hall ⟨b, b.length⟩
-            have href := all_empty_foldl_ref fl ls hall ⟨b, b.length, false⟩
+          · -- nothing to write: no seek, nothing changes
+            have hany : ls.any (fun l => !l.isEmpty) = false := by
+              simp only [List.any_eq_false, Bool.not_eq_true', Bool.not_eq_false']
+              simp only [List.all_eq_true] at hall
+              intro x hx; simpa using hall x hx
+            have hbio := all_empty_foldl_bio ls hall ⟨b, p⟩
+            have href := all_empty_foldl_ref fl ls hall ⟨b, p, false⟩
             by_cases hne : ls.isEmpty = true
             · have : ls = [] := by simpa using hne
               subst this
               simp [MemFile.step, MemFile.stepOpen, IoRef.step, IoRef.stepOpen, IoRef.isReadline0, R, hw, ha,
-                MemFile.seekLock, Bio.seekSet, Bio.seekEnd, Out.isErr]
+                MemFile.seekLock, Bio.seekSet, Out.isErr]
             · simp [MemFile.step, MemFile.stepOpen, IoRef.step, IoRef.stepOpen, IoRef.isReadline0, R, hw, ha,
-                hne, MemFile.seekLock, Bio.seekSet, Bio.seekEnd, Out.isErr, hbio, href]
+                hne, hany, MemFile.seekLock, Bio.seekSet, Out.isErr, hbio, href]
           · have hne : ls.isEmpty = false := by
               cases h : ls.isEmpty
               · rfl
               · exfalso; apply hall; have : ls = [] := by simpa using h
                 subst this; rfl
+            have hany : ls.any (fun l => !l.isEmpty) = true := by
+              cases h : ls.any (fun l => !l.isEmpty)
+              · exfalso; apply hall
+                simp only [List.any_eq_false, Bool.not_eq_true', Bool.not_eq_false'] at h
+                simp only [List.all_eq_true]
+                intro x hx; simpa using h x hx
+              · rfl
             simp only [hall] at hf
             simp [MemFile.step, MemFile.stepOpen, IoRef.step, IoRef.stepOpen, IoRef.isReadline0, R, hw, ha,
-              hne, MemFile.seekLock, Bio.seekSet, Bio.seekEnd, Out.isErr, hb, hf]
+              hne, hany, MemFile.seekLock, Bio.seekSet, Bio.seekEnd, Out.isErr, hb, hf]
     | truncate size =>
       cases hw : fl.writing
       · simp [MemFile.step, MemFile.stepOpen, IoRef.step, IoRef.stepOpen, IoRef.isReadline0, R, hw]
